@@ -323,6 +323,40 @@ def run_op(op, ins, outs, env, arrays, opts=None):
     return [out]
 
 
+def run_custom(ins, outs, env, arrays, fn):
+    """Loop semantics with an arbitrary elementary function and any number of outputs: for every assignment of the
+    un-bracketed axes, fn(*bracketed sub-tensors) -> (tuple of) bracketed output sub-tensor(s)."""
+    pin = [_single_piece(e, env) for e in ins]
+    pouts = [_single_piece(e, env) for e in outs]
+    V = []
+    for p in pouts + pin:
+        for k in _unbracketed_keys(p):
+            if k not in V:
+                V.append(k)
+    lens = _vlens(V, env, pouts + pin)
+    Us = []
+    for p, a in zip(pin, arrays):
+        U, blens, _ = unpack(a, p, env, V)
+        Us.append(np.broadcast_to(U, tuple(lens) + tuple(blens)))
+    oblens = [_index_arrays(po, env, V)[2] for po in pouts]
+    res = [[] for _ in pouts]
+    for v in np.ndindex(*lens):
+        r = fn(*[U[v] for U in Us])
+        if len(pouts) == 1 and not isinstance(r, tuple):
+            r = (r,)
+        for j, x in enumerate(r):
+            res[j].append(np.asarray(x).reshape(tuple(oblens[j])))
+    if len(res[0]) == 0:
+        raise Unsupported("zero-sized loop")
+    results = []
+    for j, po in enumerate(pouts):
+        R = np.array(res[j]).reshape(tuple(lens) + tuple(oblens[j]))
+        out = np.zeros(X.shape_of(X.expand(outs[j]), env), dtype=R.dtype)
+        pack(out, R, po, env, V)
+        results.append(out)
+    return results
+
+
 def _elementary(op, bl, bn, oblens, opts, env):
     if op == "custom":
         return opts["_fn"]
